@@ -1,6 +1,8 @@
 package rules
 
 import (
+	"strings"
+
 	"golang.org/x/tools/go/ssa"
 
 	"hdrcheck/an"
@@ -102,6 +104,61 @@ func runC16(c *an.Ctx) {
 		default:
 			// result of estimateTailHeight (checked above) or of findTailHeight (heights of stored headers)
 			c.Ok("C16.c", "tailHeight-result:"+term, "tailHeight returns a configured, estimated or found height", tailHeight, r, "returns "+term, tf.AtInstr(r))
+		}
+	}
+
+	// the window-based search: the estimate it starts from lies within the chain (≤ head.Height(): a
+	// height above the head cannot be fetched, tail renewal would fail on every Head()/Start), and the
+	// refinement only walks up past headers that are older than the window cut
+	if find := p.Method("sync", "Syncer", "findTailHeight"); c.Need(find, "C16.c", "sync.(*Syncer).findTailHeight") {
+		ft, ff := c.T(find), c.F(find)
+		var walk *ssa.Phi
+		an.Instrs(find, func(in ssa.Instruction) {
+			if ph, isPhi := in.(*ssa.Phi); isPhi {
+				for _, e := range ph.Edges {
+					if ft.Of(e) == "("+ft.Of(ph)+"+1)" {
+						walk = ph
+					}
+				}
+			}
+		})
+		if c.Check(walk != nil, "C16.c", "window-search-loop", "findTailHeight refines its estimate by a loop that steps the height up by one", find, nil, "", nil) {
+			nStep, nInit := 0, 0
+			for _, pe := range ff.PhiOperands(walk) {
+				if ft.Of(pe.Val) == "("+ft.Of(walk)+"+1)" {
+					nStep++
+					okDir := false
+					for _, gc := range invokesOf(ft, "GetByHeight", nil) {
+						if len(gc.Call.Args) != 2 || ft.Of(gc.Call.Args[1]) != ft.Of(walk) || !pe.Facts.Has(an.EQ(ft.Of(gc)+"#1", "nil")) {
+							continue
+						}
+						for _, f := range pe.Facts {
+							if f.Op == "LT" && f.Pos && stripUTC(f.A) == "Time("+ft.Of(gc)+"#0)" && strings.Contains(f.B, "Time(p3)") && strings.Contains(f.B, "-p0.Params.PruningWindow") {
+								okDir = true
+							}
+						}
+					}
+					c.Check(okDir, "C16.c", "walk-up-only-past-older-headers", "the tail estimate is stepped up only past a stored header whose time is before head.Time() − PruningWindow (a header inside the window stops the walk and is kept)", find, walk, "", pe.Facts)
+					continue
+				}
+				// initial value: every way the estimate is computed stays ≤ head.Height()
+				var leaves func(v ssa.Value, fs an.FactSet, depth int)
+				leaves = func(v ssa.Value, fs an.FactSet, depth int) {
+					if ph, isPhi := v.(*ssa.Phi); isPhi && depth < 3 && ph != walk {
+						for _, ie := range ff.PhiOperands(ph) {
+							leaves(ie.Val, ie.Facts, depth+1)
+						}
+						return
+					}
+					nInit++
+					fs = append(append(an.FactSet{}, fs...), unsignedFacts(ft, v, 4)...)
+					okB := ff.ProveGEFacts(fs, an.Var("Height(p3)", true), ft.Affine(v), 0)
+					c.Check(okB, "C16.c", "estimate-within-chain:"+an.Stable(ft.Of(v)), "every estimate the window search starts from is proven ≤ head.Height() (header times may be spaced wider than the block time: halted chain)", find, walk, "estimate "+an.Stable(ft.Of(v)), fs)
+				}
+				leaves(pe.Val, pe.Facts, 0)
+			}
+			c.Min("C16.c", "upward steps of the window search", nStep, 1)
+			c.Min("C16.c", "estimates feeding the window search", nInit, 2)
 		}
 	}
 
